@@ -277,8 +277,59 @@ def check_fifo(eng, run):
         run.ob("C12.fifo", f"FairLock:{k}", v)
 
 
+def check_lock_with_timeout(eng, run):
+    """the helper that takes a client's lock with a deadline registers the release only once the lock is really held"""
+    from sa.analyses.base import RuleAnalysis
+
+    fn = eng.db.fn("lowlevel._utils:lock_with_timeout")
+    lockp = fn.params()[0].arg
+
+    class Acq(RuleAnalysis):
+        tokens = ("Exception",)
+
+        def __init__(self, e):
+            super().__init__(e)
+            self.viol = []
+            self.pushes = 0
+
+        def initial(self, f):
+            return [False]
+
+        def may_raise(self, node, fact):
+            return []
+
+        def transfer(self, node, fact):
+            c = call_of(node)
+            if isinstance(node, ast.Call) and isinstance(c.func, ast.Attribute) and c.func.attr in ("push", "callback", "enter_context") and any(lockp in ast.unparse(a) for a in c.args):
+                self.pushes += 1
+                if not fact and c.func.attr != "enter_context":
+                    self.viol.append(node)
+            if isinstance(node, WithEnter) and dotted(node.item.context_expr) == lockp:
+                self.pushes += 1
+                return [True]
+            return [fact]
+
+        def branch(self, test, fact):
+            t, neg = test, False
+            while isinstance(t, ast.UnaryOp) and isinstance(t.op, ast.Not):
+                neg = not neg
+                t = t.operand
+            if isinstance(t, ast.Call) and isinstance(t.func, ast.Attribute) and t.func.attr == "acquire" and dotted(t.func.value) == lockp:
+                return ([fact], [True]) if neg else ([True], [fact])
+            return [fact], [fact]
+
+    an = Acq(eng)
+    Interp(an, fn).run()
+    if an.pushes == 0:
+        raise AnalysisError("anchor vanished: release registration in lock_with_timeout")
+    for v in an.viol[:1]:
+        run.finding("C12.span", fn, _stmt_at(fn, v.lineno), "the release of the lock is registered on a path on which the lock has not been acquired: when the acquire times out, the exit stack releases a lock held by another thread, which then sends concurrently with the next caller (interleaved packets)")
+    run.ob("C12.span", f"{fn.short}:release-registered-only-when-held", not an.viol, registrations=an.pushes)
+
+
 def run(eng, run):
     run.not_decided += NOT_DECIDED
+    check_lock_with_timeout(eng, run)
     check_held(eng, run)
     check_guards(eng, run)
     check_tls(eng, run)
@@ -336,6 +387,10 @@ MUTANTS = [
             lambda fn: insert_after(fn, stmt_has("endpoint = await self.__ensure_connected()"), "self.__backend.create_task_group().start_soon(endpoint.send_packet, packet)"),
             "C12.order"),
 ]
+
+MUTANTS.append(Variant("lock-with-timeout-push-before-acquire", "lowlevel._utils:lock_with_timeout",
+                       lambda fn: (delete_stmt(fn, stmt_is("stack.push(lock)"), 1), insert_before(fn, stmt_is("with ElapsedTime() as elapsed"), "stack.push(lock)")), "C12.span",
+                       why="a timed-out acquire releases the lock held by another thread"))
 
 BENIGN = [
     Variant("async-tcp-rename-endpoint-local", _ATCP + ".send_packet", lambda fn: rename_local(fn, "endpoint", "ep"), why="local renamed"),
